@@ -182,7 +182,7 @@ func zzC13_history() {
 	}
 	_, obs := cc.observationHandler.GetObservation(message.Token{0xA0, 1}.Hash())
 	symAssert(!obs, "no observation entry is retained")
-	symAssert(cc.numOutstandingInteraction.TryAcquire(1<<62), "no outstanding-interaction slot is retained")
+	symAssert(cc.numOutstandingInteraction.TryAcquire(1<<63-1), "no outstanding-interaction slot is retained")
 }
 
 // a confirmable request that is queued behind NSTART (an earlier one is unanswered) and gives up there - cancelled,
@@ -230,7 +230,7 @@ func zzC13_nstart_cancel() {
 	symAssert(len(s.written) == base, "nothing of the request that gave up is transmitted afterwards")
 	symAssert(cc.tokenHandlerContainer.Length() == 0, "no waiting token continuation is retained")
 	symAssert(cc.midHandlerContainer.Length() == 0, "no waiting message-ID continuation is retained")
-	symAssert(cc.numOutstandingInteraction.TryAcquire(1<<62), "no outstanding-interaction slot is retained")
+	symAssert(cc.numOutstandingInteraction.TryAcquire(1<<63-1), "no outstanding-interaction slot is retained")
 	symCover("ticked")
 }
 
